@@ -210,6 +210,53 @@ Print Assumptions C07_ghost_consistent.
 Print Assumptions C07_one_version_observable_partial.
 Print Assumptions C07_retry_monotone.
 
+(* ---- totality (property C04 for the Maven resolver): for every client that itself returns a value or an
+   error (a client that panics makes Resolve panic: that panic is the client's) and whose answers mention only
+   the version keys of a finite list U, every semver oracle and every root, the resolution returns a graph or an
+   error as soon as the fuel reaches the EXPLICIT bound S (length U): never Panic, never OutOfFuel.
+   Measure of a pass: queue length + number of distinct keys of U that are not yet nodes (a queue entry is added
+   only together with a new node, whose key is a client answer); the retry loop runs the same pass at most
+   maven_max_retries + 1 times with the same fuel, so the bound does not depend on maxRetries. *)
+Theorem C07_resolve_total :
+  forall (c_version : vkey -> res version) (c_versions : pkey -> res (list version))
+         (c_requirements : vkey -> res (list reqver)) (is_simple : bytes -> res bool)
+         (cmatch : bytes -> bytes -> bool) (vless : vkey -> vkey -> bool) (U : list vkey),
+    answers_in c_version c_versions U -> client_total c_version c_versions c_requirements is_simple ->
+    forall root, exists F, forall fuel, (F <= fuel)%nat ->
+      match resolve c_version c_versions c_requirements is_simple cmatch vless fuel root with
+      | Panic _ => False | OutOfFuel => False | _ => True end.
+Proof.
+  intros cv cvs cr isim cm vl U A T root. exists (S (length U)).
+  exact (thm_resolve_total cv cvs cr isim cm vl U root A T).
+Qed.
+Print Assumptions C07_resolve_total.
+
+(* the three `Panic _ | OutOfFuel => Stop EOther` branches of the model (after isExcluded, findMatch and imports)
+   stand for a panic raised INSIDE a client call, which Go does not recover; for a client that does not panic they
+   are unreachable, so the theorem above is not made true by them *)
+Theorem C07_absorbed_unreachable :
+  forall (c_version : vkey -> res version) (c_versions : pkey -> res (list version))
+         (c_requirements : vkey -> res (list reqver)) (is_simple : bytes -> res bool)
+         (cmatch : bytes -> bytes -> bool) (vless : vkey -> vkey -> bool),
+    client_total c_version c_versions c_requirements is_simple ->
+    (forall ex n, res_plain (is_excluded ex n)) /\
+    (forall l, res_plain (find_match c_version c_versions is_simple cmatch vless l)) /\
+    (forall vk opt, res_plain (imports c_requirements vk opt)).
+Proof. exact absorbed_unreachable. Qed.
+Print Assumptions C07_absorbed_unreachable.
+
+(* for a client given by a finite table both hypotheses are decided on the table: answers_in holds by
+   construction for U = tb_universe t, client_total is the boolean tb_plain t (checked by the harness on every
+   recorded table); the bound is tb_fuel t = S (length (tb_universe t)) *)
+Theorem C07_table_resolve_total : forall t root, tb_plain t = true ->
+  forall fuel, (tb_fuel t <= fuel)%nat ->
+    match table_resolve t fuel root with Panic _ => False | OutOfFuel => False | _ => True end.
+Proof. exact table_resolve_total. Qed.
+Print Assumptions C07_table_resolve_total.
+
+Example C07_example_total_hypotheses : tb_plain ex_tables = true.
+Proof. exact ex_plain. Qed.
+
 (* ---- the unrestricted clauses are false of the faithful model (and of the Go code: the witnesses
    are the recorded Go runs of known/C07.jsonl) *)
 Theorem C07_one_version_refuted : ~ one_version_full.
